@@ -936,6 +936,96 @@ impl Scenario for Cw1Scen {
         }
     }
 
+    /// Small scope: admins p0, p1; subkeys / strangers p2, p3; the proxy's own address `me` as a recipient; coins of
+    /// 0/1/2 of `ua` / `ub`; expiries at the current and the next block.
+    /// `cw1wl`: variant 0 mutable with admins p0, p1; variant 1 the same list, immutable.
+    /// `cw1sk`: variant 0 mutable with admins p0, p1 and nothing granted; variant 1 immutable with the single admin
+    /// p0, where p2 already holds `2ua+1ub` until the next block and the permissions delegate + withdraw.
+    fn small_scope(&mut self, variant: u64) -> Option<SmallScope> {
+        if self.wide || variant > 1 {
+            return None;
+        }
+        let (p0, p1, p2, p3) = (self.pool[0].clone(), self.pool[1].clone(), self.pool[2].clone(), self.pool[3].clone());
+        let me = self.env.contract.address.clone();
+        let h = self.env.block.height;
+        let t = self.env.block.time.nanos();
+        let next_block = format!("env height={} time={}", h + 1, t + 5_000_000_000);
+        if !self.sub {
+            // ---------------- whitelist
+            let inst = format!("inst admins=+{p0},+{p1} mutable={}", variant == 0);
+            let al = vec![
+                format!("exec {p0} execute msgs=bank/{p2}/1ua"),
+                format!("exec {p0} execute msgs=bank/{me}/0ua"),
+                format!("exec {p1} execute msgs=bank/{p2}/2ua+1ub"),
+                format!("exec {p0} execute msgs=bank/{p1}/1ua;stake/delegate/val1/1ua"),
+                format!("exec {p1} execute msgs=stake/undelegate/val1/2ua;distr/withdraw/val1"),
+                format!("exec {p0} execute msgs=distr/setaddr/{p0}"),
+                format!("exec {p0} execute msgs="),
+                format!("exec {p2} execute msgs="),
+                format!("exec {p2} execute msgs=bank/{p2}/1ua"),
+                format!("exec {p0} update_admins admins=+{p0},+{p2}"),
+                format!("exec {p0} update_admins admins=+{p1}"),
+                format!("exec {p1} update_admins admins=+{p1},+{p1}"),
+                format!("exec {p1} update_admins admins="),
+                format!("exec {p2} update_admins admins=+{p2}"),
+                format!("exec {p0} update_admins admins=+{p0},-{INVALID_ADDR}"),
+                format!("exec {p0} freeze"),
+                format!("exec {p1} freeze"),
+                format!("exec {p2} freeze"),
+                next_block,
+                format!("query can_execute sender=+{p2} msg=bank/{p2}/1ua"),
+                format!("query can_execute sender=+{p0} msg=stake/delegate/val1/1ua"),
+                "query admin_list".to_string(),
+                format!("probe +{p1} msg=bank/{me}/1ua"),
+            ];
+            return Some(SmallScope { prefix: vec![inst], alphabet: al });
+        }
+        // ---------------- subkeys
+        let mut al = vec![
+            format!("exec {p0} increase_allowance spender=+{p2} amt=1 denom=ua expires=-"),
+            format!("exec {p0} increase_allowance spender=+{p2} amt=2 denom=ub expires=h{}", h + 1),
+            format!("exec {p0} increase_allowance spender=+{p2} amt=1 denom=ua expires=h{h}"),
+            format!("exec {p2} increase_allowance spender=+{p2} amt=2 denom=ua expires=-"),
+            format!("exec {p0} decrease_allowance spender=+{p2} amt=1 denom=ua expires=-"),
+            format!("exec {p0} decrease_allowance spender=+{p2} amt=2 denom=ua expires=h{}", h + 1),
+            format!("exec {p0} set_permissions spender=+{p2} perm=0111"),
+            format!("exec {p2} set_permissions spender=+{p2} perm=1111"),
+            format!("exec {p2} execute msgs=bank/{p3}/1ua"),
+            format!("exec {p2} execute msgs=bank/{me}/1ua+1ub"),
+            format!("exec {p2} execute msgs=bank/{p3}/0ua"),
+            format!("exec {p2} execute msgs=bank/{p3}/2ua"),
+            format!("exec {p2} execute msgs=stake/delegate/val1/1ua"),
+            format!("exec {p2} execute msgs=distr/withdraw/val1;bank/{p3}/1ua"),
+            format!("exec {p2} execute msgs=stake/undelegate/val1/1ua"),
+            format!("exec {p3} execute msgs="),
+            format!("exec {p0} execute msgs=bank/{p2}/2ua;distr/setaddr/{p0}"),
+            format!("exec {p0} freeze"),
+            next_block,
+            format!("query can_execute sender=+{p2} msg=bank/{p3}/1ua"),
+        ];
+        let prefix = if variant == 0 {
+            al.push(format!("exec {p0} increase_allowance spender=+{p3} amt=1 denom=ua expires=never"));
+            al.push(format!("exec {p0} increase_allowance spender=+{p0} amt=1 denom=ua expires=-"));
+            al.push(format!("exec {p0} set_permissions spender=+{p2} perm=1000"));
+            al.push(format!("exec {p3} execute msgs=bank/{p2}/1ua"));
+            al.push(format!("exec {p0} update_admins admins=+{p1}"));
+            al.push(format!("exec {p1} update_admins admins=+{p0},+{p0},+{p2}"));
+            al.push(format!("exec {p1} increase_allowance spender=+{p0} amt=1 denom=ua expires=-"));
+            al.push(format!("probe +{p2} msg=stake/delegate/val1/1ua"));
+            vec![format!("inst admins=+{p0},+{p1} mutable=true")]
+        } else {
+            al.push(format!("exec {p0} update_admins admins=+{p0},+{p1}"));
+            al.push(format!("exec {p1} execute msgs=bank/{p1}/1ua"));
+            vec![
+                format!("inst admins=+{p0} mutable=false"),
+                format!("exec {p0} increase_allowance spender=+{p2} amt=2 denom=ua expires=h{}", h + 1),
+                format!("exec {p0} increase_allowance spender=+{p2} amt=1 denom=ub expires=-"),
+                format!("exec {p0} set_permissions spender=+{p2} perm=1001"),
+            ]
+        };
+        Some(SmallScope { prefix, alphabet: al })
+    }
+
     fn apply(&mut self, op: &str) -> Vec<String> {
         let a = Args::parse(op);
         let kind = a.pos.first().map(|s| s.as_str()).unwrap_or("");
